@@ -343,6 +343,14 @@ def oversize_tokens():
                 yield {"stream": "POST / HTTP/1.1\r\nTransfer-Encoding: chunked\r\n\r\n3;" + run + "\x01\r\nabc\r\n0\r\n\r\n", "near": True, "adj": {}}
                 yield {"stream": "GET /" + run + "\x01 HTTP/1.1\r\n\r\n" + G.FOLLOWER, "near": True, "adj": {}}
                 yield {"stream": "GET / HTTP/1.1\r\n" + run.replace(",", "-").replace("=", "-").replace(";", "-").replace("\\", "-") + "\x01: v\r\n\r\n" + G.FOLLOWER, "near": True, "adj": {}}
+    # the same shapes at the scale the default header limit admits (a quadratic matcher needs tens of seconds for these)
+    for n in (16000, 60000):
+        yield {"stream": "GET a://" + "1" * n + " x y\r\n\r\n" + G.FOLLOWER, "near": True, "adj": {}}
+        yield {"stream": "GET a://h:" + "1" * n + "\x01 HTTP/1.1\r\n\r\n" + G.FOLLOWER, "near": True, "adj": {}}
+        yield {"stream": "GET / HTTP/1.1\r\nX:" + " " * n + "\x01\r\n\r\n" + G.FOLLOWER, "near": True, "adj": {}}
+        yield {"stream": "GET / HTTP/1.1\r\nX:\t" + "\t " * (n // 2) + "\x01\r\n\r\n" + G.FOLLOWER, "near": True, "adj": {}}
+        yield {"stream": "GET / HTTP/1.1\r\nX: a" + " " * n + "\x01\r\n\r\n" + G.FOLLOWER, "near": True, "adj": {}}
+        yield {"stream": "POST / HTTP/1.1\r\nTransfer-Encoding: chunked\r\n\r\n0\r\nX:" + " " * n + "\x01\r\n\r\n", "near": True, "adj": {}}
     for t in ("http://[::1/x", "http://[/", "http://]/", "//[::1", "http://h:99999999/", "http://[v1.x]/", "http://h:x/", "http://\xff/",
               "/%", "/%zz%", "*", "h:443", "http://[::1]:80:90/", "http://a@b@c/", "?", "#", "/\xff\xfe", "http://[::ffff:1.2.3.4]/p"):
         for ver in (" HTTP/1.1", " HTTP/1.0", ""):
